@@ -33,6 +33,9 @@ func init() {
 	}
 	neutrino.VerifYield = func(point string) {
 		if strings.HasPrefix(point, "sched:") {
+			if h := schedHook.Load(); h != nil {
+				(*h)(point)
+			}
 			schedYield(point)
 			// The checkpointed filter-header loop comes round without
 			// blocking while its queries fail at once (work manager
@@ -62,6 +65,7 @@ func init() {
 		}
 	}
 	resetYield = func() {
+		schedHook.Store(nil)
 		yieldMu.Lock()
 		yieldState = map[string]*yieldPoint{}
 		yieldMu.Unlock()
@@ -123,4 +127,20 @@ func schedYield(point string) {
 	for i := 0; i < n; i++ {
 		runtime.Gosched()
 	}
+}
+
+// schedHook, if set, is called at every "sched:" point of the client, on the
+// client goroutine that reached it (possibly under client locks: it must not
+// sleep or wait, only start goroutines, count and yield the processor). It
+// is cleared at the start of every run.
+var schedHook atomic.Pointer[func(point string)]
+
+// SetSchedHook installs the hook for the current run (call it from
+// Config.AfterStart: the hook is cleared when a run begins).
+func SetSchedHook(f func(point string)) {
+	if f == nil {
+		schedHook.Store(nil)
+		return
+	}
+	schedHook.Store(&f)
 }
